@@ -47,7 +47,10 @@ def job_lattice(tier, rng):
     scf_driver.MOLS["c_atom"] = ([6], [[0, 0, 0]], 0, 1)
     scf_driver.MOLS["o_atom"] = ([8], [[0, 0, 0]], 0, 1)
     scf_driver.MOLS["hh30"] = ([1, 1], [[0, 0, 0], [30.0, 0, 0]], 0, 1)
-    mols = [["h2"], ["h2o"], ["oh-"], ["nh4+"], ["ch3"], ["ch2t"], ["h2o", "oh-"], ["ch4", "h2"], ["h2o", "h2", "oh-"], ["nh3", "h2o"], ["c_atom", "ch4"], ["o_atom", "h2o"], ["hh30"], ["ch4", "c2h4", "h2o"]]
+    scf_driver.MOLS["co"] = ([8, 6], [[0, 0, 0], [1.13, 0.05, 0.02]], 0, 1)       # 8 orbitals like CH4, different heavy/hydrogen split
+    scf_driver.MOLS["n2"] = ([7, 7], [[0, 0, 0], [1.10, 0.03, -0.04]], 0, 1)
+    mols = [["h2"], ["h2o"], ["oh-"], ["nh4+"], ["ch3"], ["ch2t"], ["h2o", "oh-"], ["ch4", "h2"], ["h2o", "h2", "oh-"], ["nh3", "h2o"], ["c_atom", "ch4"], ["o_atom", "h2o"], ["hh30"], ["ch4", "c2h4", "h2o"],
+            ["ch4", "co"], ["co", "ch4"], ["n2", "ch4", "co"]]
     convs = [[0, 0.0], [0, 0.3], [0, 0.7], [1], [2]]
     sp2s = [None, 1e-3, 1e-5, 1e-7]
     epss = [1e-4, 1e-7, 1e-10]
@@ -73,6 +76,8 @@ def job_lattice(tier, rng):
         must += [j for j in jobs if j["cap"] == 3 and j["mols"] in (["ch4", "h2"], ["h2o"]) and j["params"]["scf_converger"] in ([0, 0.3], [2]) and not j["params"]["sp2"][0]]
         must += [j for j in jobs if j["mols"] in (["c_atom", "ch4"], ["hh30"], ["ch4", "c2h4", "h2o"]) and j["params"]["sp2"] == [True, 1e-5] and j["params"]["scf_eps"] == 1e-7 and j["start"] == "guess" and j["cap"] is None
                  and j["params"]["scf_converger"] in ([1], [2])]
+        must += [j for j in jobs if j["mols"] in (["ch4", "co"], ["co", "ch4"], ["n2", "ch4", "co"]) and j["params"]["scf_eps"] == 1e-7 and j["start"] == "guess" and j["cap"] is None
+                 and j["params"]["scf_converger"] in ([1], [0, 0.3]) and j["params"]["sp2"] in ([False, 1e-5], [True, 1e-5])]
         rest = [j for j in jobs if j not in must]
         jobs = must + rng.sample(rest, 60)
     for n, j in enumerate(jobs):
